@@ -150,3 +150,39 @@ def cpmc_violations(cls_name):
             bad.setdefault("shift_any", f"step {k}: shift {st['shift']} with weights {w}")
         prev = w
     return bad, rec
+
+
+def block_estimator_deviation():
+    """single-block energy of the plain sampler vs the stated estimator (weight-averaged real local energy of the returned walkers with samples
+    further than sqrt(2/dt) from e_estimate replaced by it), for running estimates displaced by 0, +-0.7, +-1.2, +-2.5 cap radii"""
+    setup()
+    import jax
+    import jax.numpy as jnp
+    from ad_afqmc import sampling
+    S = small_system(norb=4, nocc=2, restricted=True, n_walkers=10, dt=0.02)
+    prop = S["prop_cls"](dt=S["dt"], n_walkers=S["n_walkers"])
+    ham, trial, wave = S["ham"], S["trial"], S["wave"]
+    hd = ham.build_measurement_intermediates(dict(S["ham_data"]), trial, wave)
+    hd = ham.build_propagation_intermediates(hd, prop, trial, wave)
+    rng = np.random.default_rng(9)
+    w0 = np.asarray(wave["mo_coeff"])
+    walkers = jnp.array([w0 + 0.6 * (rng.normal(size=w0.shape) + 1j * rng.normal(size=w0.shape)) for _ in range(S["n_walkers"])])
+    pd0 = prop.init_prop_data(trial, wave, hd, walkers)
+    pd0["key"] = jax.random.PRNGKey(3)
+    pd0["n_killed_walkers"] = 0
+    smp = sampling.sampler(2, 1, 1, 1)
+    radius = np.sqrt(2.0 / S["dt"])
+    base = float(pd0["e_estimate"])
+    worst = 0.0
+    for shift in (0.0, 0.7, -0.7, 1.2, -1.2, 2.5, -2.5):
+        pd = dict(pd0)
+        pd["e_estimate"] = jnp.array(base + shift * radius)
+        # the no-SR entry point returns exactly the walkers the block energy was measured on
+        e, out = smp.propagate_phaseless_ad_nosr_norot(ham, dict(hd), 0.0, jnp.array([S["h1"], S["h1"]]), prop, pd, trial, dict(wave))
+        el = np.real(np.asarray(trial.calc_energy(out["walkers"], hd, wave)))
+        est = float(pd["e_estimate"])
+        el = np.where(np.abs(el - est) > radius, est, el)
+        wts = np.asarray(out["weights"])
+        ref = float((el * wts).sum() / wts.sum())
+        worst = max(worst, abs(float(e) - ref))
+    return worst
